@@ -22,6 +22,54 @@ CLAIMED = {
     },
 }
 
+CLAIMED["C07"] = {
+    "text": "Lean theorems over the hand-written model of parser._split_keyvals (inferring path) and parser._reconstruct: "
+            "for EVERY line specification accepted by the decidable grammar predicate LineSpec.WF (all separators, "
+            "trailing semicolon, k=v / k v, quoting, repeated keys vs comma lists, flags, percent-escapes, any number "
+            "of attributes/values) the inferring parser returns exactly the specified mapping and dialect "
+            "(infer_render) and printing it with keep_order reproduces the attribute text byte for byte "
+            "(reconstruct_render, print_parse_render_attrs). The line level (columns, '.' coordinates, extra columns, "
+            "the strict=False space rendering) is covered by the correspondence and the oracle, not yet by a theorem. "
+            "The model is tied to the code by rendered specs over all dialect combinations, an exhaustive malformed "
+            "stream and the repository's data files; the oracle (byte comparison on the real code) judges exactly the "
+            "WF specs.",
+    "note": "Trusted: Lean kernel + standard axioms; the models of str.split/strip, re \\w (generated table, re-checked "
+            "against the live re module every run), urllib unquote; the correspondence is sampled. The grammar (WF) is a "
+            "judgement call and is printed in DESIGN.md §3 C07.",
+    "technique": "Lean 4 theorems over a parser model (induction, split/join lemmas) + differential correspondence",
+    "design_ref": "DESIGN.md §3 C07",
+}
+CLAIMED["C08"] = {
+    "text": "Lean theorems: unquote(quote s) = s for every string; the attribute parser is total for every string "
+            "(inferring path, and supplied dialects with non-empty separators; ValueError exactly for an empty "
+            "separator); for every GFF3-style dialect dictionary (3 separators x trailing x repeated x quoted) and every "
+            "mapping with distinct keys free of ';' '=' and non-empty lists of non-empty ARBITRARY strings, re-parsing "
+            "the printed attributes with the same dialect returns the same mapping, and the printed text contains no "
+            "tab/CR/LF; the same for quoted GTF dialects with values free of ';' and ','. The unquoted-GTF case fails "
+            "on the real code (known finding D14; negation witness proved in Lean). Correspondence: 36 dialect "
+            "dictionaries x Unicode mappings, every code point for the isspace / \\w / splitlines tables, all 1-2 byte "
+            "percent escapes, exhaustive short strings; oracle: re-parse equality, tab count, no exception.",
+    "note": "Trusted: Lean kernel + standard axioms; model of urllib.parse.unquote incl. CPython's UTF-8 'replace' decoder "
+            "(validated, not verified; the round-trip theorems do not depend on its behaviour on invalid input); "
+            "correspondence is sampled.",
+    "technique": "Lean 4 theorems (structural induction over strings and mappings) + differential correspondence",
+    "design_ref": "DESIGN.md §3 C08",
+}
+CLAIMED["C09"] = {
+    "text": "Lean theorems: per-line recovery (C07.infer_render: the inferred dialect of a WF line is exactly the "
+            "dialect it was written in, incl. fmt, separators, quoting, trailing semicolon, repeated keys, key order); "
+            "helpers._choose_dialect is the weighted majority with ties to the value seen first (vote_spec), a "
+            "unanimous window returns that dialect (choose_consistent), the key order is the duplicate-free first-seen "
+            "concatenation, empty input gives constants.dialect. Correspondence + oracle: infer_dialect on rendered "
+            "specs, _choose_dialect on two-value mixtures with weights 0-5 (all ties), DataIterator.dialect for files "
+            "and every checklines, supplied dialect verbatim, FeatureDB.dialect after import and reopen, GFF3/GTF "
+            "routing.",
+    "note": "Trusted: Lean kernel + standard axioms; stability of Python's sorted(reverse=True) is part of the model; the "
+            "window is the first checklines+1 feature lines (Iter model, validated).",
+    "technique": "Lean 4 theorems (invariant over the tally fold) + differential correspondence",
+    "design_ref": "DESIGN.md §3 C09",
+}
+
 PENDING_REASON = "check not built yet in this round of work (planned: DESIGN.md §3); nothing is claimed for it"
 
 
